@@ -13,6 +13,7 @@ pub struct AdtSerializer<'a, 'b, Output: BinaryOutput> {
     buffers: Vec<Option<Vec<u8>>>, // TODO: We can avoid this completely by generating the write_fields in the proper order
     last_index_per_chunk: HashMap<u8, u8>,
     field_indices: HashMap<String, FieldPosition>,
+    removed_steps: Vec<Option<Result<Vec<u8>>>>,
 }
 
 impl<'a, 'b, Output: BinaryOutput> AdtSerializer<'a, 'b, Output> {
@@ -28,11 +29,27 @@ impl<'a, 'b, Output: BinaryOutput> AdtSerializer<'a, 'b, Output> {
             buffers: Vec::new(),
             last_index_per_chunk: HashMap::new(),
             field_indices: HashMap::new(),
+            removed_steps: Vec::new(),
         }
     }
 
     pub fn new(metadata: &'a AdtMetadata, context: &'b mut SerializationContext<Output>) -> Self {
         context.write_u8(metadata.version);
+        // The reader meets the evolution header before the fields, so the (deduplicated) field
+        // names in the header have to take their string ids before any field is serialized.
+        let removed_steps = metadata
+            .evolution_steps
+            .iter()
+            .map(|evolution| match evolution {
+                Evolution::FieldRemoved { name } | Evolution::FieldMadeTransient { name } => {
+                    Some(Self::serialize_removed_step(context, name))
+                }
+                Evolution::FieldMadeOptional { name } if metadata.removed_fields.contains(name) => {
+                    Some(Self::serialize_removed_step(context, name))
+                }
+                _ => None,
+            })
+            .collect();
         Self {
             metadata,
             context,
@@ -41,7 +58,21 @@ impl<'a, 'b, Output: BinaryOutput> AdtSerializer<'a, 'b, Output> {
                 .collect(),
             last_index_per_chunk: HashMap::new(),
             field_indices: HashMap::new(),
+            removed_steps,
         }
+    }
+
+    fn serialize_removed_step(
+        context: &mut SerializationContext<Output>,
+        name: &str,
+    ) -> Result<Vec<u8>> {
+        context.push_buffer(Vec::new());
+        let result = SerializedEvolutionStep::FieldRemoved {
+            field_name: name.to_string(),
+        }
+        .serialize(context);
+        let buffer = context.pop_buffer();
+        result.map(|_| buffer)
     }
 
     pub fn write_field<T: BinarySerializer>(&mut self, field_name: &str, value: &T) -> Result<()> {
@@ -106,6 +137,10 @@ impl<'a, 'b, Output: BinaryOutput> AdtSerializer<'a, 'b, Output> {
         removed_fields: &HashSet<String>,
     ) -> Result<()> {
         for (v, evolution) in evolution_steps.iter().enumerate() {
+            if let Some(step) = self.removed_steps[v].take() {
+                self.context.write_bytes(&step?);
+                continue;
+            }
             let step = match evolution {
                 Evolution::InitialVersion => {
                     let size = self.buffers[v].as_ref().unwrap().len().try_into()?;
